@@ -82,6 +82,13 @@ func (r *Run) c03Build(t interface {
 	// foreign for both kinds of request, so that a rejected node is rejected whoever asks
 	foreign := []string{"text/html", "text/html; charset=utf-8", "application/xml", "text/plain", "image/png", "application/octet-stream", "application/activity+xml", "application/jsonx", "application/xrd+xml",
 		"application/*", "*/*", "application/*; charset=utf-8", "*/json", "application/*+json"}
+	// a tolerated type that goes on with a further token character is another type (RFC 9110
+	// tokens: ! # $ % & ' * + - . ^ _ ` | ~ besides letters and digits)
+	for _, c := range "!#$%&'*+-.^_`|~" {
+		for _, base := range []string{"application/activity+json", "application/json", "application/jrd+json", "application/ld+json"} {
+			foreign = append(foreign, base+string(c)+"draft", base+string(c))
+		}
+	}
 	pick := func(v []string) string { return v[t.Draw(len(v))] }
 	for i, u := range urls {
 		n := &c03Node{URL: u, WF: wf}
